@@ -1053,6 +1053,11 @@ class Conc:
                 body += [margin + "if 1:", margin + "    " + ln]
             elif c == 1:
                 body += [self.r.choice(["", margin, margin + "  ", " "]) + "# note", margin + ln]
+            elif " = " in ln and self.r.random() < .4:
+                # the assignment split by a backslash continuation whose second line carries a comment, and one more
+                # statement after it (the continuation state of the re-margining scanner must end with the logical line)
+                lhs, rhs = ln.split(" = ", 1)
+                body += [margin + lhs + " = \\", margin + "      " + rhs + "  # continued", margin + "pass"]
             else:
                 body.append(margin + ln)
         return self.ind() + "<%\n" + "\n".join(body) + "\n" + self.r.choice(["", " ", margin]) + "%>\n"
